@@ -164,6 +164,154 @@ namespace
     if (idx % 500 == 7)
       ctx.sample(JObj().num("Tp", Tp).num("alpha", alpha).num("cp", c_p).num("g", g).boolean("spherical", sph).str("features", fdesc).num("forced_surface_T", force ? tsurf : NAN).done());
   }
+  // ---------------- depth limits: inside the footprint but above the (local) top or below the (local) bottom ----------------
+  // Feature kinds: 0 continental plate, 1 oceanic plate, 2 mantle layer (top and bottom each absent / constant / a surface given by
+  // values at points), 3 plume, 4 subducting plate, 5 fault (min / max depth each absent or constant; max depth shallower than the
+  // geometric reach). A point above the local top or below the local bottom is in no feature: background state.
+  const char *LKIND[] = {"continental plate", "oceanic plate", "mantle layer", "plume", "subducting plate", "fault"};
+  const char *LMODE[] = {"absent", "constant", "values-at-points"};
+  void run_limits(uint64_t idx, Ctx &ctx)
+  {
+    static const int c_out = Ctx::counter_id("outside_depth_limit_probes"), c_in = Ctx::counter_id("inside_sanity_probes"), c_bg = Ctx::counter_id("background_checks");
+    const Radix rx({6, 3, 3, 2, 2});
+    const auto d = rx.decode(idx);
+    const unsigned fk = static_cast<unsigned>(d[0]), mn = static_cast<unsigned>(d[1]), mx = static_cast<unsigned>(d[2]);
+    const bool sph = d[3] == 1, second_feature = d[4] == 1;
+    if (fk >= 3 && (mn == 2 || mx == 2)) return;     // plume / slab / fault take plain numbers only
+    const double s = sph ? 1.0 : 1e5;
+    const double Tp = 1600, alpha = 3.5e-5, c_p = 1250, g = 9.81;
+    const P2 Q = {{1.0, 0.5}};                        // the interior point that carries the deviating surface value
+    const double top_default = 1e5, top_q = 3e5, bot_default = 5e5, bot_q = 3.8e5;
+    const std::string models = "\"temperature models\":[{\"model\":\"uniform\",\"temperature\":777}],"
+                               "\"composition models\":[{\"model\":\"uniform\",\"compositions\":[0,1],\"fractions\":[0.25,0.75]}],"
+                               "\"velocity models\":[{\"model\":\"uniform raw\",\"velocity\":[1,2,3]}],"
+                               "\"grains models\":[{\"model\":\"uniform\",\"compositions\":[0,1],\"Euler angles z-x-z\":[[10,20,30],[40,50,60]],\"grain sizes\":[0.5,-1]}]";
+    auto sq = [&](double x0, double x1, double y0, double y1) { return pts({{x0*s,y0*s},{x1*s,y0*s},{x1*s,y1*s},{x0*s,y1*s}}); };
+    std::string f = std::string("{\"model\":\"") + LKIND[fk] + "\",\"name\":\"f\",";
+    const double m_const = fk >= 3 ? 5e4 : top_default, M_const = fk >= 3 ? 1.5e5 : bot_default;
+    if (mn == 1) f += "\"min depth\":" + num(m_const) + ",";
+    if (mn == 2) f += "\"min depth\":[[" + num(top_default) + "],[" + num(top_q) + ",[" + pt({Q[0]*s, Q[1]*s}) + "]]],";
+    if (mx == 1) f += "\"max depth\":" + num(M_const) + ",";
+    if (mx == 2) f += "\"max depth\":[[" + num(bot_default) + "],[" + num(bot_q) + ",[" + pt({Q[0]*s, Q[1]*s}) + "]]],";
+    const double deg_per_m = 180.0 / (PI * R_EARTH);
+    if (fk <= 2) f += "\"coordinates\":" + sq(-5, 5, -5, 5) + "," + models + "}";
+    else if (fk == 3)
+      f += "\"coordinates\":[" + pt({Q[0]*s, Q[1]*s}) + "," + pt({Q[0]*s, Q[1]*s}) + "],\"cross section depths\":[1e5,4e5],\"semi-major axis\":[" + num(1.5*s) + "," + num(1.5*s) + "],"
+           "\"eccentricity\":[0,0],\"rotation angles\":[0,0]," + models + "}";
+    else
+      f += "\"coordinates\":[" + pt({0, -5*s}) + "," + pt({0, 5*s}) + "],\"dip point\":" + pt({9*s, 0}) + ",\"segments\":[{\"length\":4e5,\"thickness\":[5e4],\"angle\":[45]}]," + models + "}";
+    std::vector<std::string> feats;
+    // optional second feature far away horizontally (feature loop state must not leak into the answer)
+    if (second_feature) feats.push_back("{\"model\":\"oceanic plate\",\"name\":\"far\",\"max depth\":9e5,\"coordinates\":" + sq(20, 30, 20, 30) + "," + models + "}");
+    feats.push_back(f);
+    const std::string text = world(coord(sph) + ",\"gravity model\":{\"model\":\"uniform\",\"magnitude\":" + num(g) + "},\"potential mantle temperature\":" + num(Tp) +
+                                   ",\"thermal expansion coefficient\":" + num(alpha) + ",\"specific heat\":" + num(c_p), feats);
+    auto w = make_world(text);
+    double my_tag = -2;
+    for (size_t i = 0; i < w->feature_tags.size(); ++i) if (w->feature_tags[i] == LKIND[fk]) my_tag = static_cast<double>(i);
+    struct Loc { double x, y, top, bot; const char *name; };   // lattice units; local top / bottom of the feature there (NAN: no limit)
+    std::vector<Loc> locs;
+    const double margin = 2e4;
+    if (fk <= 2)
+      {
+        const double t_def = mn == 0 ? NAN : top_default, b_def = mx == 0 ? NAN : bot_default;
+        locs.push_back({Q[0] + 0.01, Q[1] + 0.01, mn == 2 ? top_q : t_def, mx == 2 ? bot_q : b_def, "at the listed value point"});
+        locs.push_back({-4.9, -3.0, t_def, b_def, "near the polygon edge"});
+        locs.push_back({3.0, 4.9, t_def, b_def, "near another polygon edge"});
+      }
+    else if (fk == 3)
+      locs.push_back({Q[0] + 0.2, Q[1] - 0.1, mn == 0 ? 0.0 : m_const, mx == 0 ? NAN : M_const, "near the plume axis"});
+    auto expect_background = [&](const P3 &p, double depth, const std::string &where, const std::string &side)
+    {
+      ctx.count(c_out);
+      for (const Request &req : REQS)
+        {
+          const std::vector<double> out = w->properties(p, depth, req);
+          ctx.eval();
+          size_t slot = 0;
+          for (size_t ip = 0; ip < req.size(); ++ip)
+            {
+              const unsigned kind = req[ip][0];
+              const size_t n = kind == 3 ? 10*req[ip][2] : (kind == 5 ? 3 : 1);
+              for (size_t k = 0; k < n; ++k)
+                {
+                  double expect = kind == 4 ? -1.0 : 0.0;
+                  bool ok;
+                  if (kind == 1)
+                    {
+                      expect = static_cast<double>(static_cast<long double>(Tp) * expl(static_cast<long double>(alpha) * g * depth / c_p));
+                      ok = std::fabs(out[slot+k] - expect) <= 1e-13 * expect;
+                    }
+                  else ok = out[slot+k] == expect;
+                  ctx.count(c_bg);
+                  if (!ok)
+                    {
+                      ctx.violation(std::string("C03/depth-limit/") + LKIND[fk] + "/" + side + "/min-depth=" + LMODE[mn] + "/max-depth=" + LMODE[mx] +
+                                    "/" + (kind == 1 ? "temperature" : kind == 2 ? "composition" : kind == 3 ? "grains" : kind == 4 ? "tag" : "velocity"),
+                                    JObj().str("what", "a point inside the footprint but " + side + " of the feature does not get the background state").str("where", where)
+                                    .boolean("spherical", sph).raw("point", jarr(p)).num("depth", depth).raw("request", jreq(req)).integer("slot", static_cast<long long>(slot+k))
+                                    .num("expected", expect).num("observed", out[slot+k]).raw("output", jarr(out)).str("world", text).done());
+                      return;
+                    }
+                }
+              slot += n;
+            }
+        }
+    };
+    auto tag_at = [&](const P3 &p, double depth) { return w->properties(p, depth, {{{4,0,0}}})[0]; };
+    bool meaningful = false;
+    for (const Loc &l : locs)
+      {
+        const P3 dummy = {{0,0,0}}; (void)dummy;
+        // sanity: just inside the limits the feature is found (otherwise the outside probes would say nothing)
+        const double t = std::isnan(l.top) ? 0.0 : l.top, b = std::isnan(l.bot) ? (fk == 3 ? 4e5 : 8e5) : l.bot;
+        const double din = fk == 3 ? std::max(t + margin, 1.2e5) : t + margin, din2 = b - margin;
+        const bool in1 = tag_at(query_point(sph, l.x*s, l.y*s, din), din) == my_tag, in2 = tag_at(query_point(sph, l.x*s, l.y*s, din2), din2) == my_tag;
+        ctx.count(c_in, 2);
+        if (!in1 || !in2)
+          {
+            ctx.violation(std::string("C03/depth-limit/") + LKIND[fk] + "/inside-the-limits-not-found/min-depth=" + LMODE[mn] + "/max-depth=" + LMODE[mx],
+                          JObj().str("what", "a point 20 km inside the local depth limits of the feature is not tagged with it").str("where", l.name).boolean("spherical", sph)
+                          .num("x", l.x*s).num("y", l.y*s).num("depth_below_top", din).boolean("found_below_top", in1).num("depth_above_bottom", din2).boolean("found_above_bottom", in2).str("world", text).done());
+            continue;
+          }
+        if (!std::isnan(l.top) && l.top > 0)
+          for (double dd : {l.top - margin, l.top - 4*margin, 0.0})
+            if (dd >= 0) { expect_background(query_point(sph, l.x*s, l.y*s, dd), dd, l.name, "above the top"); meaningful = true; }
+        if (!std::isnan(l.bot))
+          for (double dd : {l.bot + margin, l.bot + 4*margin, l.bot + 3e5})
+            { expect_background(query_point(sph, l.x*s, l.y*s, dd), dd, l.name, "below the bottom"); meaningful = true; }
+      }
+    if (fk >= 4)
+      {
+        // probes on the line 20 km (slab) / 10 km (fault) from the dipping plane, which is geometrically inside the body down to 2.8e5 m;
+        // with a min depth m the whole geometry starts at depth m
+        const double off = fk == 4 ? 2e4 : 1e4, m = mn == 0 ? 0.0 : m_const, M = mx == 0 ? NAN : M_const;
+        auto on_line = [&](double depth) { const double xm = (depth - m) - off*std::sqrt(2.0); return sph ? xm*deg_per_m : xm/1e5; };   // lattice units
+        for (double y : {-2.0, 1.5})
+          {
+            const double dtop = m + 4e4, dbot = std::isnan(M) ? 2.2e5 : M - 1e4;
+            const bool in1 = tag_at(query_point(sph, on_line(dtop)*s, y*s, dtop), dtop) == my_tag, in2 = tag_at(query_point(sph, on_line(dbot)*s, y*s, dbot), dbot) == my_tag;
+            ctx.count(c_in, 2);
+            if (!in1 || !in2)
+              {
+                ctx.violation(std::string("C03/depth-limit/") + LKIND[fk] + "/inside-the-limits-not-found/min-depth=" + LMODE[mn] + "/max-depth=" + LMODE[mx],
+                              JObj().str("what", "a point inside the dipping body and inside its depth limits is not tagged with the feature").boolean("spherical", sph).num("y", y*s)
+                              .num("depth_near_top", dtop).boolean("found_near_top", in1).num("depth_near_bottom", dbot).boolean("found_near_bottom", in2).str("world", text).done());
+                continue;
+              }
+            if (!std::isnan(M))
+              for (double dd : {M + 1e4, M + 4e4, M + 1e5})
+                { expect_background(query_point(sph, on_line(dd)*s, y*s, dd), dd, "on the line inside the dipping body", "below the bottom"); meaningful = true; }
+            if (m > 0)
+              for (double dd : {m - 1e4, m - 4e4, 0.0})
+                for (double xo : {0.0, 0.2, 0.5})
+                  { expect_background(query_point(sph, (sph ? xo : xo)*s*(sph ? 1.0 : 1.0), y*s, dd), dd, "above the starting depth, near the trench", "above the top"); meaningful = true; }
+          }
+      }
+    if (meaningful) ctx.nontrivial();
+    if (idx % 37 == 3) ctx.sample(JObj().str("feature", LKIND[fk]).str("min depth", LMODE[mn]).str("max depth", LMODE[mx]).boolean("spherical", sph).boolean("second_feature", second_feature).done());
+  }
 }
 
 int main(int argc, char **argv)
@@ -173,14 +321,21 @@ int main(int argc, char **argv)
   spec.level = "exploration";
   spec.rule = "full product of global constants (Tp, alpha, cp, |g|) x coordinate system x feature list kind x forced-surface setting; one world per tuple, "
               "each queried on a 4x2 lattice x 7 depths x 6 request lists; a case is non-trivial when at least one background (outside-feature) value was compared "
-              "against the closed form; tuples are distinct by construction";
+              "against the closed form; tuples are distinct by construction. limits suite: full product of feature type x top mode x bottom mode x coordinate system x alone/second, "
+              "probes inside the horizontal footprint but beyond the local depth limits must return the background state";
   spec.assumptions = {"'outside every feature' is decided geometrically by the harness: all features live at x >= 0 (or >= 0.5 lattice units), background points have x < 0",
                       "closed form evaluated in long double, compared with relative tolerance 1e-13; exact equality for zeros, tag and forced temperature"
                      };
-  spec.counters = {"forced_surface_checks", "background_checks", "forced_inside_feature_checks"};
+  spec.counters = {"forced_surface_checks", "background_checks", "forced_inside_feature_checks", "outside_depth_limit_probes", "inside_sanity_probes"};
   return driver(argc, argv, spec, [](const std::string &tier)
   {
-    std::vector<Suite> s(1);
+    std::vector<Suite> s(2);
+    s[1].name = "limits";
+    s[1].n = 6*3*3*2*2;
+    s[1].run = run_limits;
+    s[1].bound = "{continental plate, oceanic plate, mantle layer} x top {absent, constant, values at points} x bottom {absent, constant, values at points}, {plume, subducting plate, fault} x min depth {absent, constant} x "
+                 "max depth {absent, constant, shallower than the geometric reach} x {cartesian, spherical} x {alone, after a far-away feature}: probes inside the footprint 20/80 km above the local top and "
+                 "20/80/300 km below the local bottom (on a line inside the dipping body for slab and fault) must return the background state for 6 request lists; probes 20 km inside the limits must be tagged (sanity)";
     const bool th = tier == "thorough";
     const auto &tp = th ? TP2 : TP; const auto &al = th ? ALPHA2 : ALPHA; const auto &cp = th ? CP2 : CP; const auto &gr = th ? GRAV2 : GRAV;
     s[0].name = "background";
